@@ -63,6 +63,9 @@ type outcome struct {
 	Log            []evt      `json:"log,omitempty"`
 	EffQueue       []effEvent `json:"effective_queue_mutations,omitempty"`
 	sigKind        string
+	// ReuploadedAfterFailedStartupCopy: blobs sent by the client after this incarnation's start-up
+	// sync had failed to copy them (family "full-sync-reupload")
+	ReuploadedAfterFailedStartupCopy int `json:"reuploaded_after_failed_startup_copy,omitempty"`
 }
 
 func (o *outcome) add(sig, format string, args ...any) {
@@ -370,6 +373,23 @@ func execute(sc *scenario) *outcome {
 			w.rec.mu.Unlock()
 		}
 
+		if is.AwaitFaults {
+			// schedule control: the uploads of this incarnation follow the failed copies of its
+			// start-up sync (pacing only: when the planned faults do not arrive the uploads go ahead)
+			want, got := plannedFaults(is), 0
+			for deadline := time.Now().Add(20 * time.Second); time.Now().Before(deadline); time.Sleep(5 * time.Millisecond) {
+				if got = len(inc.deliveredFaults()); got >= want {
+					break
+				}
+			}
+			time.Sleep(100 * time.Millisecond) // the copier's bookkeeping of the last failed call
+			if got >= want {
+				o.Schedules = append(o.Schedules, "upload-after-the-failed-copies-of-the-start-up-sync")
+				o.ReuploadedAfterFailedStartupCopy = w.failedBeforeReupload(inc, todo)
+			} else {
+				o.Schedules = append(o.Schedules, "planned-faults-never-delivered")
+			}
+		}
 		failed := w.client(inc, todo, is.Burst, acked, o)
 		if is.RetryNow {
 			for t := 0; t < 2 && len(failed) > 0; t++ {
@@ -520,6 +540,34 @@ func execute(sc *scenario) *outcome {
 		}
 	}
 	return o
+}
+
+// failedBeforeReupload counts the blobs of todo for which the incarnation has so far seen a failed
+// (or tampered) lower-layer call of the copy path and no acknowledged destination write.
+func (w *world) failedBeforeReupload(inc *incarnation, todo []sto.Blob) int {
+	failed, okd := map[string]bool{}, map[string]bool{}
+	for _, e := range w.rec.snapshot() {
+		if e.Inc != inc.n || e.Ret == 0 {
+			continue
+		}
+		switch {
+		case e.Layer == "dst" && e.Op == "ReceiveBlob" && e.OK:
+			if b, ok := w.blobOf(e.Key); ok && e.Size == int64(len(b.Data)) {
+				okd[e.Key] = true
+			} else {
+				failed[e.Key] = true
+			}
+		case (e.Layer == "dst" && e.Op == "ReceiveBlob" || e.Layer == "src" && e.Op == "Fetch") && (!e.OK || e.Tamper != ""):
+			failed[e.Key] = true
+		}
+	}
+	n := 0
+	for _, b := range todo {
+		if k := b.Ref.String(); failed[k] && !okd[k] {
+			n++
+		}
+	}
+	return n
 }
 
 func tail(evs []evt, n int) []evt {
